@@ -18,6 +18,7 @@ import (
 	"encoding/hex"
 	"encoding/json"
 	"encoding/pem"
+	"errors"
 	"fmt"
 	"math/big"
 	"math/rand"
@@ -997,6 +998,88 @@ func genC09(r *Runner) {
 	for _, c := range cases {
 		r.Submit(c)
 	}
+	c09CatalogueChains(r)
+}
+
+// c09CatalogueChains: every chain of the C03 / C14 catalogue (each deviation at each position, both purposes, lengths 1..4),
+// parsed certificates that crypto/x509 accepts, through every entry point that takes a chain, with and without a signing
+// time: none may panic (the mutated-bytes streams rarely produce a certificate that still parses *and* is odd in one field)
+func c09CatalogueChains(r *Runner) {
+	type job struct {
+		purpose string
+		n, pos  int
+		m       chainMut
+	}
+	var jobs []job
+	for _, purpose := range []string{"cs", "ts"} {
+		for _, m := range chainMutations(purpose) {
+			for n := 1; n <= 4; n++ {
+				for pos := 0; pos < n; pos++ {
+					if applies(m, pos, n) {
+						jobs = append(jobs, job{purpose, n, pos, m})
+					}
+				}
+			}
+		}
+	}
+	var mu sync.Mutex
+	total := 0
+	var found []*Case
+	runJobs(len(jobs), func(i int) {
+		j := jobs[i]
+		specs := validSpecs(j.n, j.purpose, "ec256-0", func(i int) string { return fmt.Sprintf("ec256-%d", 10+i) })
+		j.m.fn(specs, j.pos)
+		chain, _, err := buildChain(specs)
+		if err != nil {
+			return
+		}
+		now := baseTime()
+		entry := map[string]func(){
+			"ValidateCodeSigningCertChain": func() {
+				_ = nx509.ValidateCodeSigningCertChain(chain, &now)
+				_ = nx509.ValidateCodeSigningCertChain(chain, nil)
+			},
+			"ValidateTimestampingCertChain": func() { _ = nx509.ValidateTimestampingCertChain(chain) },
+			"revocation.ValidateContext/cs": func() { c09Revoke(chain, purpose.CodeSigning) },
+			"revocation.ValidateContext/ts": func() { c09Revoke(chain, purpose.Timestamping) },
+			"signature.VerifyAuthenticity": func() {
+				_, _ = signature.VerifyAuthenticity(&signature.SignerInfo{CertificateChain: chain}, chain[len(chain)-1:])
+			},
+		}
+		for name, f := range entry {
+			o := guarded(10*time.Second, func() error { f(); return nil })
+			mu.Lock()
+			total++
+			if o.Outcome == "panic" || o.Outcome == "hang" {
+				clause := map[string]string{"panic": "panic_on_the_calling_goroutine", "hang": "does_not_return"}[o.Outcome]
+				c := &Case{ID: fmt.Sprintf("catalogue-chain-%s-%s-n%d-p%d-%s", j.purpose, j.m.name, j.n, j.pos, name), K: "total",
+					In:   map[string]any{"target": "catalogue-chain", "entry": name, "mutation": j.m.name, "n": j.n, "pos": j.pos, "purpose": j.purpose},
+					Impl: map[string]any{"outcome": o.Outcome, "_detail": o.Detail}, Class: "catalogue-chain/" + o.Outcome,
+					Replay: map[string]any{"chain_pem": pemChain(chain), "entry": name, "detail": o.Detail}}
+				c.local, c.localClause = true, clause
+				found = append(found, c)
+			}
+			mu.Unlock()
+		}
+	})
+	sumc := &Case{ID: "catalogue-chains", K: "total", In: map[string]any{"target": "catalogue-chain", "cases": total},
+		Impl: map[string]any{"outcome": "terminated"}, Class: "catalogue-chain"}
+	sumc.local, sumc.weight = true, total
+	r.Submit(sumc)
+	for _, c := range found {
+		r.Submit(c)
+	}
+}
+
+func c09Revoke(chain []*x509.Certificate, p purpose.Purpose) {
+	tr := roundTripFunc(func(req *http.Request) (*http.Response, error) { return nil, errors.New("no network") })
+	client := &http.Client{Transport: tr, Timeout: 2 * time.Second}
+	v, err := revocation.NewWithOptions(revocation.Options{OCSPHTTPClient: client, CRLFetcher: &scriptedFetcher{m: map[string]*fetchBehaviour{}}, CertChainPurpose: p})
+	if err != nil {
+		return
+	}
+	_, _ = v.ValidateContext(context.Background(), revocation.ValidateContextOptions{CertChain: chain, AuthenticSigningTime: baseTime()})
+	_, _ = revocsp.CheckStatus(revocsp.Options{CertChain: chain, SigningTime: baseTime(), HTTPClient: client, CertChainPurpose: p})
 }
 
 func mustECKey(id string) *ecdsa.PrivateKey { return getKey(id).Priv.(*ecdsa.PrivateKey) }
